@@ -109,6 +109,13 @@ def eqhash_job(jid, tree_a, tree_b=None, relation='equal', history=(), history_s
                                                     return as_str(x)
                                                 J.prove(m, s9, zb(str_eq(txt(raw['source']), txt(raw2['source']))), 'C14: clone(a).source() differs from b.source() although a == b', mf)
                                                 J.see('clone_checked')
+                            # a == b: every observer answers the same on a (after its history) and on the untouched b
+                            sx = s4.clone(); sx.extra['root'] = sx.extra['a']
+                            OBS = ['source', 'size', 'map1', 'c1f0']
+                            for s5, rawa in streams.observe(m, J, sx, None, ta, sa, OBS, mf):
+                                s5.extra['root'] = s5.extra['b']
+                                for s6, rawb in streams.observe(m, J, s5, None, tb, sb, OBS, mf):
+                                    agree(m, J, s6, rawa, rawb, OBS, mf)
                             J.see('equal_checked')
                         else:
                             # one edit apart: the values must be told apart by == and by the hash stream, whenever the edit is real
@@ -119,3 +126,24 @@ def eqhash_job(jid, tree_a, tree_b=None, relation='equal', history=(), history_s
                             J.see('differ_checked')
     J.samples.append({'a': tree_a, 'b': tree_b, 'relation': relation, 'dyn': dyn, 'history': list(history), 'history_slots': history_slots})
     return J.result(required_witnesses=['equal_checked' if relation == 'equal' else 'differ_checked'])
+
+
+def agree(m, J, s, rawa, rawb, kinds, mf, depth=0):
+    from lib import oracles
+    mdl = J.model(m, s.pc)
+    if mdl is None: return
+    try:
+        oa = streams.to_obs(m, s, mdl, rawa, m.idx); ob = streams.to_obs(m, s, mdl, rawb, m.idx)
+    except streams.Undetermined as u:
+        if depth > 30: raise Inconclusive('observation not determined by the path after 30 case splits')
+        for side in (u.expr, z3.Not(u.expr)):
+            if m.feasible(s, side):
+                s2 = s.clone(); s2.pc.append(side); s2.model = None
+                agree(m, J, s2, rawa, rawb, kinds, mf, depth + 1)
+        return
+    J.obligations += 1
+    for k in kinds:
+        if not oracles.same_obs(k, oa, ob):
+            d = mf(mdl); d['oracle'] = 'C14: a == b, yet %s answers differently on a (after its history) and on b' % k
+            J.cex.append(d); return
+    J.discharged += 1
